@@ -1166,7 +1166,116 @@ impl W3Exec {
     }
 }
 
+/// C11 marathon: `cfg.marathon` (> 2^20) steps on one environment, almost all of them idle, a handful carrying a small
+/// trade. The per-step audit of the ordinary runs re-reads every series after every step (quadratic), so here the audit is
+/// sparse: the harness remembers what the live book showed at the end of a few sampled steps (early ones, around 2^19 and
+/// 2^20, the last ones) and the volume those steps traded; at the end every series must have exactly k entries and hold the
+/// remembered values at the sampled positions.
+fn marathon(scn: &W3Scn) -> RunOutcome {
+    let cfg = &scn.cfg;
+    let mut stats = RunStats::default();
+    let k_total = cfg.marathon as usize;
+    let viol = |class: &str, step: usize, field: &str, exp: String, act: String| Violation::new(&cfg.property, class, step, field, exp, act);
+    let res = (|| -> Result<(), Violation> {
+        let mut env = guard(|| new_env(cfg.market, cfg.assets, cfg.levels, cfg.t0, &cfg.ticks, cfg.step_size, true)).map_err(|m| viol("panic", 0, "construction", "no abort".into(), m))?;
+        let mut rng = SeamRng::passthrough(cfg.rng_seed);
+        let half = 1usize << 19;
+        let mut sampled: Vec<usize> = vec![1, 2, 3, 7, 1000, half - 1, half, half + 1, half + 2, 2 * half - 1, 2 * half, 2 * half + 1];
+        for d in 0..4 {
+            if k_total > d {
+                sampled.push(k_total - d);
+            }
+        }
+        sampled.sort();
+        sampled.dedup();
+        let active: Vec<usize> = vec![1, 2, 6, half - 2, half + 1, 2 * half - 3, 2 * half + 1, k_total - 1];
+        // (step, asset) -> (live book at the end of the step, volume the step traded)
+        let mut remembered: Vec<(usize, usize, BookObs, u64)> = vec![];
+        for k in 1..=k_total {
+            let is_sampled = sampled.binary_search(&k).is_ok();
+            let before: Vec<usize> = if is_sampled { (0..cfg.assets).map(|a| env.env_trades(a).len()).collect() } else { vec![] };
+            if active.contains(&k) {
+                for a in 0..cfg.assets {
+                    let t = cfg.ticks[a];
+                    let c = 1000 + (k % 50) as u32;
+                    // a resting bid and ask a few ticks apart, and a small sell that trades with the bid: asymmetric by construction
+                    let _ = env.place(a, true, 5 + (k % 4) as u32, 1, Some((c - 2) * t));
+                    let _ = env.place(a, false, 11 + (k % 3) as u32, 2, Some((c + 60) * t));
+                    let _ = env.place(a, false, 2, 3, None);
+                }
+            }
+            {
+                let e = &mut env;
+                let r = &mut rng;
+                guard(move || e.step(r)).map_err(|m| viol("panic", k, "step", "no abort".into(), m))?;
+            }
+            if is_sampled {
+                for a in 0..cfg.assets {
+                    let tr = env.env_trades(a);
+                    let vol: u64 = tr[before[a].min(tr.len())..].iter().map(|t| t.vol as u64).sum();
+                    remembered.push((k, a, env.book_obs(a), vol));
+                }
+            }
+            stats.ops += 1;
+        }
+        for a in 0..cfg.assets {
+            let o = guard(|| env.obs(a)).map_err(|m| viol("panic", k_total, "observation", "no abort".into(), m))?;
+            let h = &o.hist;
+            let f = |s: &str| format!("asset{}.{}", a, s);
+            let mut series: Vec<(String, &Vec<u32>)> = vec![
+                ("prices.bid".into(), &h.prices.0), ("prices.ask".into(), &h.prices.1), ("volumes.bid".into(), &h.volumes.0), ("volumes.ask".into(), &h.volumes.1),
+                ("touch_volumes.bid".into(), &h.touch_volumes.0), ("touch_volumes.ask".into(), &h.touch_volumes.1),
+                ("touch_order_counts.bid".into(), &h.touch_counts.0), ("touch_order_counts.ask".into(), &h.touch_counts.1), ("trade_vols".into(), &h.trade_vols),
+            ];
+            for i in 0..h.vol_levels.0.len() {
+                series.push((format!("volumes_at_levels.bid[{}]", i), &h.vol_levels.0[i]));
+                series.push((format!("volumes_at_levels.ask[{}]", i), &h.vol_levels.1[i]));
+                series.push((format!("orders_at_levels.bid[{}]", i), &h.cnt_levels.0[i]));
+                series.push((format!("orders_at_levels.ask[{}]", i), &h.cnt_levels.1[i]));
+            }
+            for (name, s) in &series {
+                if s.len() != k_total {
+                    return Err(viol("record-mismatch", k_total, &f(&format!("{}.len", name)), k_total.to_string(), s.len().to_string()).detail(format!("after {} steps every recorded series has exactly {} entries", k_total, k_total)));
+                }
+            }
+            for (k, ra, b, vol) in &remembered {
+                if *ra != a {
+                    continue;
+                }
+                let j = k - 1;
+                let exp: Vec<(&str, u32, u32)> = vec![
+                    ("prices.bid", b.bid_ask.0, h.prices.0[j]), ("prices.ask", b.bid_ask.1, h.prices.1[j]), ("volumes.bid", b.bid_vol, h.volumes.0[j]), ("volumes.ask", b.ask_vol, h.volumes.1[j]),
+                    ("touch_volumes.bid", b.bid_best_vol, h.touch_volumes.0[j]), ("touch_volumes.ask", b.ask_best_vol, h.touch_volumes.1[j]),
+                    ("touch_order_counts.bid", b.bid_best.1, h.touch_counts.0[j]), ("touch_order_counts.ask", b.ask_best.1, h.touch_counts.1[j]),
+                ];
+                for (name, live, rec) in exp {
+                    if live != rec {
+                        return Err(viol("record-mismatch", *k, &f(&format!("{}[{}]", name, j)), live.to_string(), rec.to_string()).detail("entry of a recorded series differs from what the live book showed at the end of that step".into()));
+                    }
+                }
+                for i in 0..h.vol_levels.0.len().min(b.bid_levels.len()) {
+                    if h.vol_levels.0[i][j] != b.bid_levels[i].0 || h.vol_levels.1[i][j] != b.ask_levels[i].0 || h.cnt_levels.0[i][j] != b.bid_levels[i].1 || h.cnt_levels.1[i][j] != b.ask_levels[i].1 {
+                        return Err(viol("record-mismatch", *k, &f(&format!("levels[{}][{}]", i, j)), format!("{:?} / {:?}", b.bid_levels[i], b.ask_levels[i]), format!("({}, {}) / ({}, {})", h.vol_levels.0[i][j], h.cnt_levels.0[i][j], h.vol_levels.1[i][j], h.cnt_levels.1[i][j])));
+                    }
+                }
+                if h.trade_vols[j] as u64 != *vol {
+                    return Err(viol("record-mismatch", *k, &f(&format!("trade_vols[{}]", j)), vol.to_string(), h.trade_vols[j].to_string()));
+                }
+            }
+        }
+        stats.probe("marathon_of_2_20_steps");
+        stats.probe("asymmetric_book_recorded");
+        Ok(())
+    })();
+    stats.sim_time = stats.ops * cfg.step_size;
+    stats.end_digest = cfg.marathon ^ cfg.rng_seed;
+    RunOutcome { violation: res.err(), stats }
+}
+
 pub fn execute(scn: &W3Scn) -> RunOutcome {
+    if scn.cfg.marathon > 0 {
+        return marathon(scn);
+    }
     let mut ex = match W3Exec::new(&scn.cfg) {
         Ok(e) => e,
         Err(msg) => {
